@@ -190,6 +190,12 @@ pub enum FxSkipImplicit { A, #[codec(skip)] B(u8), C(u16), #[codec(skip)] D, E {
 pub struct FxPhantom<X> { pub a: u8, pub p: PhantomData<X>, pub b: (u16, PhantomData<u64>), #[codec(skip)] pub s: u32, pub c: Option<X> }
 #[derive(Encode, TypeInfo)]
 #[cfg_attr(kani, derive(kani::Arbitrary))]
+pub struct FxSkipUnnamed(pub u8, #[codec(skip)] pub u16, pub u32, #[codec(skip)] pub bool);
+#[derive(Encode, TypeInfo)]
+#[cfg_attr(kani, derive(kani::Arbitrary))]
+pub enum FxSkipUnnamedVar { A(#[codec(skip)] u32, bool, u8), #[codec(index = 7)] B(u16, #[codec(skip)] u8), C { #[codec(skip)] a: u8, b: u16 } }
+#[derive(Encode, TypeInfo)]
+#[cfg_attr(kani, derive(kani::Arbitrary))]
 pub struct FxNested { pub g: FxPhantom<u16>, pub e: FxIndexed, pub arr: [FxCLike; 2], pub t: (u8, (bool, i16)), pub b: Box<u32> }
 '''
 FIXED_MODELS = None   # filled in below
@@ -206,7 +212,10 @@ def fixed_decls():
     sk = Decl('FxSkipImplicit', 'enum', [], [Variant('A', 'unit', []), Variant('B', 'unnamed', [Field('0', I('u8'))], skip=True), Variant('C', 'unnamed', [Field('0', I('u16'))]), Variant('D', 'unit', [], skip=True),
                                               Variant('E', 'named', [Field('s', I('u8'), skip=True), Field('x', I('i32'))])])
     ex = Decl('FxExprDisc', 'enum', [], [Variant('Read', 'unit', [], disc=1), Variant('Write', 'unit', [], disc=2), Variant('Exec', 'unit', [], disc=4), Variant('Tagged', 'unit', [], disc=42), Variant('Paren', 'unit', [], disc=21), Variant('Plain', 'unit', [])])
-    return [cp, idx, cl, ph, ne, sk, ex], [Ty('user', cp, []), Ty('user', idx, []), Ty('user', cl, []), Ty('user', ph, [I('u32')]), Ty('user', ne, []), Ty('user', sk, []), Ty('user', ex, [])]
+    su = Decl('FxSkipUnnamed', 'struct-unnamed', [], [Field('0', I('u8')), Field('1', I('u16'), skip=True), Field('2', I('u32')), Field('3', Ty('bool'), skip=True)])
+    sv = Decl('FxSkipUnnamedVar', 'enum', [], [Variant('A', 'unnamed', [Field('0', I('u32'), skip=True), Field('1', Ty('bool')), Field('2', I('u8'))]), Variant('B', 'unnamed', [Field('0', I('u16')), Field('1', I('u8'), skip=True)], index=7),
+                                                Variant('C', 'named', [Field('a', I('u8'), skip=True), Field('b', I('u16'))])])
+    return [cp, idx, cl, ph, ne, sk, ex, su, sv], [Ty('user', cp, []), Ty('user', idx, []), Ty('user', cl, []), Ty('user', ph, [I('u32')]), Ty('user', ne, []), Ty('user', sk, []), Ty('user', ex, []), Ty('user', su, []), Ty('user', sv, [])]
 
 
 # ----------------------------------------------------------------------------- flatten (declaration model) -> Rust code
